@@ -43,7 +43,7 @@ PROPS = {
                 rule='grammars with and without error rules; non-sentences (mutated sentences, prefixes, random strings); recovery off (exact argument tuple) and on (well-formedness of every callback, strictly increasing error tokens, first error token = model)',
                 assumptions=COMMON_ASSUME + ['firstError_iff_viable / firstError2_iff_viable need every nonterminal productive (strict grammars); callback theorems (calls_wf, calls_increasing) hold under r.ok (search finished within fuel)']),
     'C07': dict(level='proof', theorem_modules=['C07', 'C06', 'C02'], min_theorems=12, tags=['C07'], crash_counts=True,
-                gen=parse_family('C07', 3000, 40000, maxlen=9), flavours=['c'],
+                gen=lambda seed, tier: parse_family('C07', 3000, 40000, maxlen=9)(seed, tier) + [c for c in long_c09_cases(seed, 'quick') if 'farback' in c[0]], flavours=['c'],
                 rule='grammars with 0..3 error rules, non-sentences <= 9 tokens, recovery_match 1..5, one/all parses, lookahead 0-2: return code, non-NULL tree, tree vs translations of the repaired input (read off the model parse list), ignored-token accounting, callbacks and final parse list vs the step-for-step recovery model',
                 assumptions=COMMON_ASSUME + ['theorems about the recovery model hold under r.ok (the search finished within its fuel and found a best state); termination and minimality of the search are not proved']),
     'C08': dict(level='proof', theorem_modules=['C08', 'C06'], min_theorems=4, tags=['C08'], crash_counts=True,
@@ -424,6 +424,25 @@ def long_c09_cases(seed, tier):
             k += 1; c.append('op %d parse 0 user user 12 %s' % (k, perf_tokens('etf', n)))
         c += ['op %d free 0' % (k + 1), 'end']
         cases.append(c)
+    # input lengths at the growth boundaries of the token array (10000 tokens, then factor 1.5): the append
+    # that makes the array move is that of the last token or of the end marker
+    c = ['case L-cap long', 'notree', 'quietev', 'text 0 %s' % "S : S 'a' # A (0 1) | # - ;".encode().hex(), 'op 1 create 0', 'op 2 descr 0 0 1', 'op 3 set 0 rec 0']
+    k = 3
+    for n in [9999, 10000, 10001, 15000, 15001, 22503] + ([33756, 50635] if tier == 'thorough' else []):
+        k += 1; c.append('op %d set 0 la %d' % (k, r.choice([0, 1, 2])))
+        k += 1; c.append('op %d parse 0 user user 12 rep %d 1 97' % (k, n))
+    c += ['op %d free 0' % (k + 1), 'end']
+    cases.append(c)
+    # a recovery that walks the back frontier over more than 512 parser-list sets in many steps (the saved
+    # original tail grows and moves): `error` is predicted before every statement, the closing ';' never comes
+    fb = "P : P S # p (0 1) | # - ; S : 'x' ';' # s | error ';' # e ;"
+    c = ['case L-farback long', 'notree', 'quietev', 'text 0 %s' % fb.encode().hex(), 'op 1 create 0', 'op 2 descr 0 0 1', 'op 3 set 0 rec 1']
+    k = 3
+    for n, la in ((300, 1), (520, 0), (700, 1), (1100, 2)):
+        k += 1; c.append('op %d set 0 la %d' % (k, la))
+        k += 1; c.append('op %d parse 0 user user 12 rep %d 2 120 59 120 120' % (k, n))
+    c += ['op %d free 0' % (k + 1), 'end']
+    cases.append(c)
     return cases
 
 
